@@ -503,9 +503,83 @@ def rule_overlap_amount(chk, prog):
             (r.bad if bad else r.ok)("overlap%s, border %s" % (axis, border), fn.where(), bad or "%d pairs" % n)
 
 
+def rule_fixed_weight(chk, prog):
+    from ..microai.interp import Vec, SetVal
+    F = Fraction
+    r = chk.rule("FIXED-RECTANGLES-HEAVY", "the variable-creation loop of removeoverlaps(rs, fixed, thirdPass) interpreted as a fragment on three "
+                 "rectangles -- 0 free, 1 fixed and overlapping nothing, 2 fixed and overlapping 0 --, with and without the third pass: every "
+                 "fixed index gets a variable at least 1000 times as heavy as the free ones, whatever it overlaps at the start (a fixed "
+                 "rectangle that overlaps nothing initially is the one a chain of pushes runs into), variable i belongs to rectangle i, and "
+                 "the third pass remembers every initial x", floor=2)
+    fns = [f for f in prog.fns("vpsc::removeoverlaps") if len(f.params) == 3 and f.body]
+    if len(fns) != 1:
+        raise AnalysisBroken("removeoverlaps(rs, fixed, thirdPass) not found")
+    fn = fns[0]
+    news = [n for n in fn.nodes() if n.get("k") == "CXXNewExpr" and "Variable" in str(n.get("at", ""))]
+    if len(news) != 1:
+        raise AnalysisBroken("removeoverlaps: the creation of the solver variables was not found")
+    loops = [a for a in fn.ancestors(news[0]) if a.get("k") == "ForStmt"]
+    if not loops:
+        raise AnalysisBroken("removeoverlaps: variables are not created in a loop")
+    loop = loops[0]
+    locs = [d for d in fn.nodes() if d.get("k") == "VarDecl" and not d.get("parm")]
+    inside = {x.get("id") for x in walk_(loop)}
+
+    def R(x, X, y, Y):
+        return Obj("vpsc::Rectangle", {"minX": F(x), "maxX": F(X), "minY": F(y), "maxY": F(Y), "overlap": False})
+    for third in (False, True):
+        r.count()
+        rs = Vec([R(0, 10, 0, 10), R(100, 110, 0, 10), R(5, 15, 5, 15)], "vpsc::Rectangle *")
+        vs = Vec([None, None, None], "vpsc::Variable *")
+        env = {fn.params[0]["did"]: Box(rs), fn.params[1]["did"]: Box(SetVal({1, 2})), fn.params[2]["did"]: Box(third)}
+        initx = None
+        for d in locs:
+            if d.get("did") in env:
+                continue
+            t = d.get("t", "")
+            if "Variable *" in t and "vector" in t and "iterator" not in t:
+                env[d["did"]] = Box(vs)
+            elif "iterator" in t:
+                env[d["did"]] = Box(None)
+            elif t.startswith("std::vector<double"):
+                initx = Vec([F(-1)] * 3, "double")
+                env[d["did"]] = Box(initx)
+            elif t in ("unsigned int", "const unsigned int", "size_t", "unsigned long") and d.get("name") == "n":
+                env[d["did"]] = Box(3)
+            elif t in ("unsigned int", "size_t", "unsigned long", "int"):
+                env[d["did"]] = Box(0)
+        it = Interp(prog, Oracle([]), globals={"vpsc::Rectangle::xBorder": Box(F(0)), "vpsc::Rectangle::yBorder": Box(F(0))})
+        bad = None
+        try:
+            it.ex(loop, env)
+        except Unsupported as e:
+            raise AnalysisBroken("variable-creation loop of removeoverlaps outside the interpreter subset: %s" % e)
+        except AssertFail as e:
+            bad = "assertion fails: %s" % e
+        if not bad:
+            if any(v is None for v in vs.items):
+                bad = "not every rectangle gets a variable"
+            else:
+                w = [F(v.f["weight"]) for v in vs.items]
+                ids = [v.f["id"] for v in vs.items]
+                if ids != [0, 1, 2]:
+                    bad = "variable ids %s do not follow the rectangle indices" % ids
+                elif w[0] <= 0 or w[1] < 1000 * w[0] or w[2] < 1000 * w[0]:
+                    bad = "weights %s for (free, fixed overlapping nothing, fixed overlapping): a fixed rectangle is not held" % [str(x) for x in w]
+                elif third and initx is not None and [F(x) for x in initx.items] != [F(5), F(105), F(10)]:
+                    bad = "initial x positions remembered for the third pass: %s, expected the centres 5, 105, 10" % [str(x) for x in initx.items]
+        (r.bad if bad else r.ok)("thirdPass=%s" % str(third).lower(), fn.loc(loop), bad or "")
+
+
+def walk_(n):
+    from ..facts import walk
+    return walk(n)
+
+
 def run(chk):
     prog = chk.load()
     PROG[0] = prog
+    chk.guard(rule_fixed_weight, chk, prog)
     cg = CallGraph(prog)
     chk.guard(rule_paired_borders, chk, prog)
     chk.guard(rule_movers, chk, prog)
